@@ -228,8 +228,9 @@ def stepPv (c : Cfg) (w : World) (i : Nat) : World :=
     let v' := { v with pv := aset v.pv i stored, prevoted := true, rawPv := (i, vote) :: v.rawPv }
     let w' := { setV w i v' with msgs := w.msgs ++ [some ⟨v.set, v.round, 0, i, vote⟩] }
     let o := s!"pv={showB vote}"
-    if !okHandover c w v vote then emitViol w' o false
-    else if extendsEstimate c w v vote then emit w' o else emitViol w' o true
+    -- (the handover rules are demanded of precommits only: a primary's block on another chain than the voter's best
+    --  block is copied uncapped by determinePreVote)
+    if extendsEstimate c w v vote then emit w' o else emitViol w' o true
 
 /-- the gate of finalisationEngine.defineRoundVotes, then votingRoundHandler(determinePrecommit) -/
 def stepPc (c : Cfg) (w : World) (i : Nat) : World :=
